@@ -382,8 +382,10 @@ def _inner_flush_blocks(m, body):
     return out
 
 
-def rule_M3(m, rep, rid='M3'):
+def rule_M3(m, rep, rid='M3', only=None):
     """On flush->Err inside write: return that error, no later BufWriter::write / underlying write / store to written."""
+    if only:
+        rep = KeepOnly(rep, only)
     T, body = m.T, m.wbody
     fl = _inner_flush_blocks(m, body)
     if not rep.floor(rid, 'BufWriter::flush reachable from write', len(fl), 1):
@@ -408,6 +410,16 @@ def rule_M3(m, rep, rid='M3'):
                     '`%s` is modified after BufWriter::flush failed (buffer still holds the lines)' % m.f_written)
         else:
             rep.good(rid, 'failed-flush-stops', body.where(fbi), 'no write and no store to %s after a failed flush' % m.f_written)
+        # a successful flush inside write empties the buffer: the count goes back to 0 before anything else is buffered and
+        # before write returns (whether the flush is flush() itself, a private helper shared with it, or a direct call)
+        if ok_e:
+            zb = set(b for b, i, v in stores if v == ('const', 'usize', '0', None))
+            stop_at = set(C.exits(body, False)) | set(bi for bi, _ in m.bw_write_blocks())
+            okz = all(C.must_pass(body, s, stop_at, zb) for s in ok_e)
+            rep.ob(rid, 'successful-flush-resets-count', okz, body.where(fbi),
+                   '`%s` = 0 after BufWriter::flush succeeded, before the next buffered write / return' % m.f_written if okz else
+                   'after BufWriter::flush succeeded inside write, `%s` is not reset on every path: it keeps counting bytes that '
+                   'already left the buffer' % m.f_written)
         rts = ret_terms(T, err_e, known={fct: 'Err'})
         good = all(_is_err_of(rt, fct) or rt == fct for rt in rts) and rts
         if good:
@@ -518,6 +530,20 @@ def rule_M4_M5_M6(m, rep, want=('M4', 'M5', 'M6'), zero_store_ok=False):
         stores = store_sites(T, m.f_written)
         wstores = [(b, i, v) for b, i, v in stores
                    if not any(fr[0].endswith('as std::io::Write>::flush') for fr in body.blocks[b].get('frame', ()))]
+        # the reset that belongs to a flush, when write reaches the flush through a private helper shared with flush()
+        # (`fn drain(&mut self)`): a store of 0 that lies behind the Ok edge of a BufWriter::flush (and not behind its Err edge),
+        # with no buffered write in between
+        _dom = C.dominators(body, False)
+        def _reset_of_flush(b):
+            for fbi in _inner_flush_blocks(m, body):
+                ok_e, err_e, _ = outcomes(T, fbi)
+                if not ok_e or not err_e:
+                    continue
+                okr = reach(body, ok_e, stop=lambda q: q in [x for x, _ in bww])
+                if b in okr and b not in reach(body, err_e) and fbi in _dom.get(b, ()):
+                    return True
+            return False
+        wstores = [(b, i, v) for b, i, v in wstores if not (v == ('const', 'usize', '0', None) and _reset_of_flush(b))]
         ct1, ct2 = norm(T.call_term(b1)), norm(T.call_term(b2))
         r1 = field_of(('payload', ct1, 'Ok'), '0', 0)
         r2 = field_of(('payload', ct2, 'Ok'), '0', 0)
